@@ -976,3 +976,83 @@ def load_known():
         return []
     with open(p) as fh:
         return json.load(fh).get("findings", [])
+
+
+# ------------------------------------------------------------------------------------------
+# MIR inlining of private helpers: lets the intraprocedural rules see through "extract helper" refactors
+
+
+def _remap(x, lmap, bmap):
+    """deep copy of a MIR JSON fragment with locals and block indices renamed"""
+    if isinstance(x, list):
+        return [_remap(y, lmap, bmap) for y in x]
+    if not isinstance(x, dict):
+        return x
+    out = {}
+    for k, v in x.items():
+        if k == "local" and isinstance(v, int):
+            out[k] = lmap(v)
+        elif k in ("target", "otherwise", "unwind") and isinstance(v, int):
+            out[k] = bmap(v)
+        elif k == "targets" and isinstance(v, list):
+            out[k] = [[e[0], bmap(e[1])] if isinstance(e, list) else (bmap(e) if isinstance(e, int) else e) for e in v]
+        else:
+            out[k] = _remap(v, lmap, bmap)
+    return out
+
+
+def inline_private(facts, body, keep=(), depth=2, max_blocks=120, _stack=()):
+    """Body equal to `body` with every direct call of a small private (non-exported, non-recursive) function of the crate replaced
+    by the callee's blocks.  `keep`: names / paths of callees that stay calls (the helpers a rule knows by name)."""
+    blocks = [dict(bl, stmts=list(bl["stmts"])) for bl in body.blocks]
+    locals_ = list(body.locals)
+    changed = False
+    inlined = []
+    for i in range(len(body.blocks)):
+        t = blocks[i].get("term")
+        if not t or t["k"] != "call" or blocks[i].get("cleanup"):
+            continue
+        fn = callee_fn(t)
+        if not fn or not fn.get("local") or not fn.get("path"):
+            continue
+        path = fn["path"]
+        cb = facts.body(path)
+        if cb is None or cb.kind not in ("Fn", "AssocFn") or cb.exported() or path == body.path or path in _stack:
+            continue
+        if path in keep or (cb.name in keep) or len(cb.blocks) > max_blocks or t.get("target") is None:
+            continue
+        if len(t["args"]) != cb.arg_count or t["dest"]["proj"]:
+            continue
+        if depth > 1:
+            cb = inline_private(facts, cb, keep=keep, depth=depth - 1, max_blocks=max_blocks, _stack=_stack + (body.path,))
+        loff, boff = len(locals_), len(blocks)
+        locals_.extend(dict(l) for l in cb.locals)
+        exit_b = boff + len(cb.blocks)
+        lmap = lambda l, o=loff: l + o
+        bmap = lambda b, o=boff: b + o
+        for bl in cb.blocks:
+            nb = {"stmts": _remap(bl["stmts"], lmap, bmap)}
+            if bl.get("cleanup"):
+                nb["cleanup"] = True
+            tt = bl.get("term")
+            if tt and tt["k"] == "return":
+                nb["term"] = {"k": "goto", "target": exit_b, "span": tt.get("span")}
+            else:
+                nb["term"] = _remap(tt, lmap, bmap)
+            blocks.append(nb)
+        # exit block: dest = move callee._0 ; goto original target
+        blocks.append({"stmts": [{"k": "assign", "place": dict(t["dest"]), "rv": {"k": "use", "op": {"k": "move", "place": {"local": loff, "proj": [], "ty": cb.locals[0]["ty"]}}}, "span": t.get("span")}], "term": {"k": "goto", "target": t["target"], "span": t.get("span")}})
+        # parameter passing at the call site
+        for k_, a in enumerate(t["args"]):
+            blocks[i]["stmts"].append({"k": "assign", "place": {"local": loff + 1 + k_, "proj": [], "ty": cb.locals[1 + k_]["ty"]}, "rv": {"k": "use", "op": a}, "span": t.get("span")})
+        blocks[i]["term"] = {"k": "goto", "target": boff, "span": t.get("span"), "inlined_call": path}
+        inlined.append(path)
+        changed = True
+    if not changed:
+        return body
+    j = dict(body.j)
+    j["blocks"] = blocks
+    j["locals"] = locals_
+    nb = Body(j, facts)
+    nb.inlined_callees = inlined + [p for p in getattr(body, "inlined_callees", [])]
+    return nb
